@@ -59,6 +59,7 @@ def oracle(log):
     unreset_child = False
     end_kind = None
     fin = False
+    waits = {}           # thread -> log lines of its WAIT records
 
     def T(k):
         return th.setdefault(k, {"api": None, "hnd": None, "await": False, "child": False, "want": None, "locked": False})
@@ -144,6 +145,14 @@ def oracle(log):
                         installed[n] = False
                     for g in list(grants):
                         if (g.live or g.credit) and i in g.members:
+                            # an interest that is unregistered excuses a delivery noted for it only if its handler had no chance to run:
+                            # once the owner has gone into the kernel wait three times since the delivery, it had (shared interests
+                            # only: for an exclusive group the log does not show which member was woken)
+                            if g.live and not g.group and not g.inprog:
+                                loops = sum(1 for x in waits.get(k, []) if x > g.born)
+                                if loops >= 3:
+                                    return ("signal:delivery-lost", f"delivery of signal {g.n} received by T{g.k} (line {g.born}): handler of s{i} was never invoked "
+                                            f"although its owner T{k} entered the kernel wait {loops} times before unregistering it at line {ln}")
                             g.members.discard(i)
                             if g.members and g.group:
                                 # if i was the member that had been woken, the hand-off goes to the first exclusive interest
@@ -155,6 +164,8 @@ def oracle(log):
                                     tree = "thr" if (g.tree == "thr" and any(ints[j]["sig"] == n for j in thr_tree(g.k))) else "proc"
                                     make(g.k, n, tree, True, ln, "unlock", walker=k)
                                 g.live = g.credit = False
+        elif r == "WAIT":
+            waits.setdefault(k, []).append(ln)
         elif r == "SIGACTION":
             n, what = int(w[2]), w[3]
             want = t.get("want") or []
@@ -521,7 +532,13 @@ def run(tier, seed, proof):
                     return bool(model_replay(x.stdout)[0])
                 small = common.shrink(lines, still, budget=80)
                 p = common.write_case(PROP, name, small, tier, seed, ext="scn")
-                res.divergences.append((f"model Ivy.L2.Signal does not predict iv_signal.c: {div[:400]}", p))
+                # the minimised diverging scenario is itself valid use: when the oracle rejects the implementation on it (e.g. because the
+                # lines that excused a lost delivery are gone) it is a concrete failing input, not just a broken correspondence
+                v3 = impl_fails(small)[0]
+                if v3 is not None and not v3[0].startswith(("harness", "skip")):
+                    res.impl_violations.append((v3[0], f"implementation violates C10: {v3[1]}", p))
+                else:
+                    res.divergences.append((f"model Ivy.L2.Signal does not predict iv_signal.c: {div[:400]}", p))
             if len(res.impl_violations) + len(res.divergences) >= 4:
                 stop = True
     res.extra["model_action_coverage"] = cov
